@@ -32,9 +32,7 @@ impl Prop for Separators {
         let text_a = c.g.text(da, ta);
         let text_b = c.g.text(db, tb);
         let rendered = format!("[{}] dec={:?} thou={:?}: {:?}  ->  dec={:?} thou={:?}: {:?}", c.g.src, da, ta, text_a, db, tb, text_b);
-        if has_glued_comma(&c.g) {
-            return Verdict::skip("a comma glued to a number (Mon d, y) is not a numeric literal", rendered);
-        }
+        let glued_comma = has_glued_comma(&c.g);
         let today0 = chrono::Utc::now().date_naive();
         let oa = match w.eval(&c.g.cfg(da, ta), &c.g.lang, &text_a) {
             Ok(o) => o,
@@ -66,6 +64,35 @@ impl Prop for Separators {
                 acc.fail(format!("line {}: {} under dec={:?}/thou={:?} but {} under dec={:?}/thou={:?}", i + 1, x.brief(), da, ta, y.brief(), db, tb));
                 break;
             }
+        }
+        // the same on ONE calculator that is re-configured through the setters between the evaluations, with each
+        // text also read once under the other convention in between (its result is not asserted): what a literal
+        // denotes depends on the configuration in force, not on anything read before
+        let mut reconfigured = false;
+        if acc.ok() {
+            let (ca, cb) = (c.g.cfg(da, ta), c.g.cfg(db, tb));
+            let steps: [(&crate::common::Cfg, &str, Option<&crate::common::EvalOut>); 5] = [(&ca, &text_a, Some(&oa)), (&cb, &text_a, None), (&cb, &text_b, Some(&ob)), (&ca, &text_b, None), (&ca, &text_a, Some(&oa))];
+            for (k, (cfg, text, expect)) in steps.iter().enumerate() {
+                match w.eval_reconfigured(cfg, &c.g.lang, text) {
+                    Ok(o) => {
+                        if let Some(e) = expect {
+                            let same = o.slots.len() == e.slots.len() && o.slots.iter().zip(e.slots.iter()).all(|(x, y)| x.same(y));
+                            if !same {
+                                if chrono::Utc::now().date_naive() != today0 {
+                                    return Verdict::skip("date changed during the case", rendered);
+                                }
+                                acc.fail(format!("step {} on one re-configured calculator: {:?} under {} gives {:?}, a calculator built for that configuration gives {:?}", k + 1, text, cfg.label(), o.slots.iter().map(|s| s.brief()).collect::<Vec<_>>(), e.slots.iter().map(|s| s.brief()).collect::<Vec<_>>()));
+                                break;
+                            }
+                        }
+                    }
+                    Err(p) => {
+                        acc.fail(format!("panic at {}: {}", p.site, p.message));
+                        break;
+                    }
+                }
+            }
+            reconfigured = true;
         }
         // reader check: every plain literal alone denotes the number the generator started from
         let mut literals = 0;
@@ -116,7 +143,7 @@ impl Prop for Separators {
             "C13" => "from:C13",
             _ => "from:C14",
         };
-        acc.finish(rendered).nt(any_ok && frac_or_group && reenters).class(src).class_if(frac_or_group, "has-fraction-or-thousands-group").class_if(reenters, "conversion-or-division").class_if(literals > 0, "literals-read-alone").class_if(any_ok, "evaluates-ok")
+        acc.finish(rendered).nt(any_ok && frac_or_group && reenters).class(src).class_if(frac_or_group, "has-fraction-or-thousands-group").class_if(reenters, "conversion-or-division").class_if(literals > 0, "literals-read-alone").class_if(any_ok, "evaluates-ok").class_if(reconfigured, "also-on-one-reconfigured-calculator").class_if(glued_comma, "punctuation-glued-to-a-number(Mon d, y)")
     }
 }
 
@@ -139,8 +166,8 @@ pub fn regressions() -> Vec<Case> {
 }
 
 pub fn run(ctx: &Ctx) {
-    ctx.rule("lines (and 2-line programs storing a value in a variable) from the generators of C02, C03, C05, C06, C09-C14 kept as token lists with tagged numeric literals x ordered pairs of the four reading conventions (',' '.', '.' ',', '.' '', ',' ''); oracle (metamorphic): the line rendered for convention A and evaluated under A, and rendered for B and evaluated under B, give bit-identical AST values (same kind, same f64, same unit/currency/zone), and every plain literal evaluated alone under its convention denotes the number the generator started from; non-trivial = the line evaluates, contains a literal with a fraction or a thousands group AND a computation that re-enters the tokenizer or divides (unit conversion, currency conversion, '/')");
-    ctx.assume("a literal is always rendered for the convention it is evaluated under; the month-first date form with a comma glued to the day is left out");
+    ctx.rule("lines (and 2-line programs storing a value in a variable) from the generators of C02, C03, C05, C06, C09-C14 kept as token lists with tagged numeric literals x ordered pairs of the four reading conventions (',' '.', '.' ',', '.' '', ',' ''); oracle (metamorphic): the line rendered for convention A and evaluated under A, and rendered for B and evaluated under B, give bit-identical AST values (same kind, same f64, same unit/currency/zone), the same results on ONE calculator that is re-configured through the setters between the evaluations (A: L_A, B: L_A unasserted, B: L_B, A: L_B unasserted, A: L_A), and every plain literal evaluated alone under its convention denotes the number the generator started from; non-trivial = the line evaluates, contains a literal with a fraction or a thousands group AND a computation that re-enters the tokenizer or divides (unit conversion, currency conversion, '/')");
+    ctx.assume("a literal is always rendered for the convention it is evaluated under; a comma glued to the day of 'Mon d, y' is punctuation, not part of the literal, under every convention");
     ctx.run_table(&Separators, "regressions", regressions(), false);
     ctx.run_generated(&Separators, ctx.tier.pick(40_000, 600_000), case_strategy);
 }
